@@ -166,7 +166,21 @@ fn s_maps(t: &mut Tape, ctx: &mut Ctx) -> Result<(), Failure> {
     let n = t.index(7);
     let mut items: Vec<(String, Val, Ty)> = vec![];
     for _ in 0..n {
-        let name = gen_name(t);
+        // one name in five is a case twin of an earlier name (`sig` / `SIG` / `Sig`): distinct names
+        let name = if !items.is_empty() && t.chance(1, 5) {
+            let base = items[t.index(items.len())].0.clone();
+            let twin = match t.index(3) {
+                0 => base.to_ascii_uppercase(),
+                1 => base.to_ascii_lowercase(),
+                _ => base.chars().enumerate().map(|(i, c)| if i % 2 == 0 { c.to_ascii_uppercase() } else { c.to_ascii_lowercase() }).collect(),
+            };
+            if twin != base {
+                ctx.label("names:case-twins");
+            }
+            twin
+        } else {
+            gen_name(t)
+        };
         if crate::tycheck::RESERVED_WORDS.contains(&name.as_str()) || items.iter().any(|(m, _, _)| *m == name) {
             continue;
         }
